@@ -487,6 +487,7 @@ def parseCall (toks : List String) : Option Call :=
   | ["sock_io_closed", d, w, e] => do if (← n w) > 6 then none else some (.mut .sockIoClosed .sock (← n d) (← argOpt e))
   | ["dir_create_missing", e] => do some (.glob .fileRemoveMissing (← argOpt e))
   | ["dir_remove_missing", e] => do some (.glob .fileRemoveMissing (← argOpt e))
+  | ["sock_shutdown", d] => do some (.mut .nop .sock (← n d) none)   -- p_socket_shutdown (both directions): no resource changes hands
   | ["sock_close", d, e] => do some (.mut .sockClose .sock (← n d) (← argOpt e))
   | ["sock_free", d] => do some (.dtor .sock (← n d))
   | ["sock_from_fd", d, e] => do some (.ctor .sockFromFd (← n d) (← argOpt e))
